@@ -123,4 +123,31 @@ theorem zLate_sorted : CivilSorted zLate := by
   have hj' : j < 1 := hj
   omega
 
+/-! ### a loadable file with such a first entry
+
+A 129-byte TZif (version 2): one transition at -2^63 + 100 to type 1 (+0, "BBB"), type 0
+(+3600, "AAA") unused by any transition and therefore the before-first type, empty footer.
+`load` accepts it without raising a flag (no sentinel is prepended because the first transition is
+negative); `MakeTime` on the first civil second of the overlap then overflows in `MakeRepeated`,
+and in exact integers `convert` is not monotone across that second. -/
+
+def lowFile : Bytes :=
+   [84, 90, 105, 102, 50, 0, 0, 0, 0, 0, 0, 0, 0, 0, 0, 0, 0, 0, 0, 0, 0, 0, 0, 0, 0, 0, 0, 0, 0, 0,
+    0, 0, 0, 0, 0, 0, 0, 0, 0, 1, 0, 0, 0, 4, 0, 0, 0, 0, 0, 0, 85, 84, 67, 0, 84, 90, 105, 102, 50,
+    0, 0, 0, 0, 0, 0, 0, 0, 0, 0, 0, 0, 0, 0, 0, 0, 0, 0, 0, 0, 0, 0, 0, 0, 0, 0, 0, 0, 0, 0, 1, 0,
+    0, 0, 2, 0, 0, 0, 8, 128, 0, 0, 0, 0, 0, 0, 100, 1, 0, 0, 14, 16, 0, 0, 0, 0, 0, 0, 0, 4, 65,
+    65, 65, 0, 66, 66, 66, 0, 10, 10]
+
+def lowFileCheck : Bool :=
+  match (load {} lowFile).val with
+  | .ok z =>
+    decide ((load {} lowFile).ok) && z.transitions.size == 2 &&
+    decide (timeOf z 0 = -9223372036854775708) && decide (offBefore z 0 = 3600) && decide (offOf z 0 = 0) &&
+    (makeTime z 0 ⟨-292277022657, 1, 27, 8, 31, 32⟩).flags.ovf &&
+    decide ((convert z 0 ⟨-292277022657, 1, 27, 8, 31, 31⟩).val.1 >
+            (convert z 0 ⟨-292277022657, 1, 27, 8, 31, 32⟩).val.1)
+  | _ => false
+
+theorem lowFile_witness : lowFileCheck = true := by decide +kernel
+
 end Cctz.Tc
